@@ -3,7 +3,7 @@ import re
 from .core import common
 from .core.mir import op_local, op_place, strip_generics, callee_name, Site
 from .core.cond import all_tests, call_site_of, borrowed_local, const_of, result_edges
-from .core.slicing import origins, origin_calls, origin_args, guard_of_pointer
+from .core.slicing import pointer_root_arg, origins, origin_calls, origin_args, guard_of_pointer
 from .core.effects import provenance
 from .core.symexpr import expr, show, strip_refs
 from . import fmtfeat
@@ -66,6 +66,11 @@ def _offset_stores(b):
             root_ok = True
         if ty == "&mut u64" and 1 <= p["l"] <= b.arg_count:
             root_ok = True
+        if not root_ok and ty == "&mut u64":
+            # a reborrow handed to an (inlined) helper
+            ra = pointer_root_arg(b, p["l"])
+            if ra is not None and b.local_ty(ra) == "&mut u64":
+                root_ok = True
         if not root_ok:
             continue
         rv = st["rv"]
@@ -194,7 +199,7 @@ def check_rejections(ctx, facts):
                                 "a request is rejected (%s) after %s at line %s has already happened" % (kind, callee_name(first.node).split("::")[-1], first.line))
                 else:
                     ctx.ok("C04.2", fn, "rejection (%s) precedes every effect" % kind.split("::")[-1][:40], b.relfile, st["line"])
-    ctx.floor("C04.2", "literal rejection returns in the writer", n, 4)
+    ctx.floor("C04.2", "literal rejection returns in the writer", n, 2)
 
 
 def check_publish(ctx, facts):
@@ -310,7 +315,7 @@ def check_publish(ctx, facts):
             ctx.ok("C04.3a", "writer::Writer::write", "offset advance is dominated by the successful Block::write", w.relfile, p.line)
         else:
             ctx.violate("C04.3a", "writer::Writer::write", "publish-without-write", w.relfile, p.line, "the offset is advanced on a path on which the entry was not written")
-    ctx.floor("C04.3a", "publish stores", n_pub, 3)
+    ctx.floor("C04.3a", "publish stores", n_pub, 2)
 
 
 def check_rollback(ctx, facts):
@@ -377,7 +382,7 @@ def check_rollback(ctx, facts):
         for s, k, sh in stores:
             if k == "rollback":
                 ctx.ok("C04.3b", F, "rollback store restores the saved original offset", b.relfile, s.line, sh)
-        ctx.floor("C04.3b", "error exits after the first effect in " + F, n_exit, 2)
+        ctx.floor("C04.3b", "error exits after the first effect in " + F, n_exit, 1)
     # 3c: block restore
     installs = _install_sites(bw)
     if installs:
@@ -511,7 +516,7 @@ def check_rollback_zeroing(ctx, facts):
                             "or when the next batch overwrites only the zeroed one" % ", ".join(why))
             else:
                 ctx.ok("C04.3d", F, "rollback is preceded by the zeroing of every planned header", b.relfile, s.line)
-    ctx.floor("C04.3d", "rollback stores", n, 3)
+    ctx.floor("C04.3d", "rollback stores", n, 1)
 
 
 def _is_restore(b, install_site):
